@@ -31,6 +31,12 @@ CHECKS = {
  'C19': ('E1 product', 'exhaustive enumeration of labelled bond graphs x presentations and of graphs x type assignments x exclusion sets x renamings against set definitions and the reference equations',
          'Enumeration: all 263 (quick, n<=5) / 4224 (thorough, n<=6) labelled triangle-free graphs without isolated vertices x 7+ bond-list presentations. Typing: all 26 graphs n<=4 x all 6^n assignments of a 6-type alphabet x every exclusion subset x 3 term-list presentations x renamings, and 237 graphs n=5 x 16 covering assignments; partition = reversal-canonical sequence (+M), coefficient text = documented format of the reference values, None-torsions dropped, unsupported refused, retype/pair tables.',
          'Torsion multiplicity M is counted before exclusion (implementation-documented). Trusted: networkx-free reference in mc/checks/C19.py, mc/ref/uff.py.', '3/C19'),
+ 'C13': ('E1 product', 'bounded-exhaustive enumeration of structure shapes, each written, parsed by an independent read_data-style reader, re-read and re-written',
+         '5 cells (orthorhombic, both tilt signs, tilt printing as 0, none) x per-kind (types, terms) shapes (8 fixed; thorough: full 6^4 product) x tables x 10 coefficient strings (keywords, multiple blanks, scientific notation, trailing comments) x charges x coordinates x labels x atom-type layouts x both atom styles; (a) mc/ref/lammps.py must read exactly the structure from the text and find it internally consistent, (b) load_lmpdat reproduces it, (c) save(load(.)) is a fixed point after one pass, (d) path / file-object routes agree.',
+         'Coefficient strings with at most one trailing comment; LAMMPS-oriented cells. Trusted: mc/ref/lammps.py (written from the read_data documentation).', '3/C13'),
+ 'C15': ('E1 product', 'bounded-exhaustive enumeration of structure shapes, each written, parsed by two independent readers, re-read and re-written, plus a hand-written read-side menu',
+         '5 cells x 4 coordinate menus (generic, grid, outside, boundary) x 7 term shapes incl. impropers x 0/1/2 extra columns per kind x charges x fractional/Cartesian: independent tokenizer and ase.io.read agree with the text; re-read reproduces elements, cell parameters, fractional coordinates mod 1, charges, terms, extra columns; T2==T1 for in-cell inputs, T3==T2 always; 11 hand-written files (uncertainties, Cartesian, H-M names accepted/rejected, wrap).',
+         'Installed PyCifRW 5.0.1 / ase 3.29. Cartesian output only for standard-orientation cells. Trusted: mc/ref/cif.py, ase.io.read.', '3/C15'),
 }
 
 NOT_YET = {}
